@@ -263,7 +263,10 @@ def m_into_iter(ex, st, m, a):
 
 
 def m_zip(ex, st, m, a):
-    return Agg('Zip', (a[0], a[1]))
+    other = a[1]
+    if isinstance(other, Ref):          # zip takes IntoIterator: a slice / array / Vec reference iterates by reference
+        other = m_into_iter(ex, st, None, [other])
+    return Agg('Zip', (a[0], other))
 
 
 def _iter_next(ex, st, r):
@@ -646,7 +649,7 @@ def m_ref_int_op(ex, st, m, a):
         ex.oblige(st, 'panic', c, 'attempt to negate with overflow', ('leaf', m.group(0)))
         return ex.unop(st, 'Neg', x)
     y = deref(ex, st, a[1]) if isinstance(a[1], Ref) else a[1]
-    name = {'div': 'Div', 'rem': 'Rem', 'add': 'Add', 'sub': 'Sub', 'mul': 'Mul'}[op]
+    name = {'div': 'Div', 'rem': 'Rem', 'add': 'Add', 'sub': 'Sub', 'mul': 'Mul', 'bitxor': 'BitXor', 'bitor': 'BitOr', 'bitand': 'BitAnd'}[op]
     if name in ('Div', 'Rem'):
         c = simp_bool(b_not(ex.binop('Eq', y, BV(y.w, y.s, 0))))
         ex.oblige(st, 'panic', c, 'division by zero', ('leaf', m.group(0)))
@@ -697,6 +700,7 @@ STD_MODELS = [
     (r'<(?P<ty>[\w:]+) as PartialOrd>::(?P<meth>lt|le|gt|ge)', m_partial_ord_default),
     (r'core::slice::<impl \[.+\]>::split_at(_mut)?', m_split_at_mut),
     (r'<&(?:i64|u64|usize|i32|u32) as (?:std::ops::)?(?:Neg|Div<\w+>|Rem<\w+>|Add<\w+>|Sub<\w+>|Mul<\w+>)>::(?P<op>neg|div|rem|add|sub|mul)', m_ref_int_op),
+    (r'<&(?:u8|u16|i64|u64|usize|i32|u32) as (?:std::ops::)?Bit(?:Xor|Or|And)(?:<.+>)?>::(?P<op>bitxor|bitor|bitand)', m_ref_int_op),
     (r'<\[(u8|u16|u32|u64|usize|i64); (\d+)\] as Default>::default', m_default_array),
     (r'<(u8|u16|u32|u64|usize|i64|i32) as Default>::default', m_default_int),
     (r'core::num::<impl (?:u64|u32|usize)>::leading_zeros', m_clz),
